@@ -223,7 +223,7 @@ def gen_Y2(rng, Y, X, idx, c):
 
 def gen_case(rng, tier):
     u = rng.random()
-    big = 2500 if tier == "quick" else 6000
+    big = 2500 if tier == "quick" else 5000
     if u < 0.35:
         n = rng.randint(1, 20)
     elif u < 0.72:
@@ -389,10 +389,10 @@ def evaluate(cases, fresh=(), max_respawn=4):
     return out
 
 
-def balanced_eval(exprs, weights, jobs=14):
+def balanced_eval(exprs, weights, jobs=12):
     """vlib.coq_eval over shards of similar cost (big cases dealt round-robin), results back in input order"""
     from concurrent.futures import ThreadPoolExecutor
-    nb = max(1, min(jobs, -(-len(exprs) // 3)))
+    nb = max(1, min(jobs, -(-len(exprs) // 3)), -(-len(exprs) // 50))       # <= 50 cases per generated file
     order = sorted(range(len(exprs)), key=lambda i: -weights[i])
     bins = [order[b::nb] for b in range(nb)]
     bins = [b for b in bins if b]
@@ -454,7 +454,7 @@ def check(run, replay):
         fresh = [0]
     else:
         cases = load_corpus()
-        ngen = 260 if run.tier == "quick" else 1500
+        ngen = 260 if run.tier == "quick" else 2200
         for _ in range(ngen):
             cases.append(gen_case(run.rng, run.tier))
         if run.tier == "thorough":
